@@ -7,4 +7,5 @@ var Harnesses = map[string]func(){
 	"Find":      Find,
 	"HashClean": HashClean,
 	"HashDet":   HashDet,
+	"Glob":      Glob,
 }
